@@ -152,23 +152,41 @@ pub(crate) enum CacheKind<V: Val, S: StratExt<V>> {
 }
 
 fn identity<V>(v: &V) -> &V {
+    crate::fault::hit(crate::fault::K_PROJECTION);
     v
 }
 
 pub(crate) struct Held<V: Val, S: StratExt<V>> {
-    pub(crate) g: Guard<V, S>,
+    /// `None` only after `release`
+    inner: Option<Guard<V, S>>,
     pub(crate) id: u64,
+}
+
+impl<V: Val, S: StratExt<V>> Held<V, S> {
+    pub(crate) fn g(&self) -> &Guard<V, S> {
+        self.inner.as_ref().expect("guard already released")
+    }
+}
+
+impl<V: Val, S: StratExt<V>> Drop for Held<V, S> {
+    fn drop(&mut self) {
+        // Dropped without `release` (a panic unwound through the frame that held it): the ledger
+        // must still learn that the harness gives this guard up, before the guard itself goes.
+        if let Some(g) = self.inner.as_ref() {
+            g.note_guard(-1);
+        }
+    }
 }
 
 fn hold<V: Val, S: StratExt<V>>(g: Guard<V, S>) -> Held<V, S> {
     let id = g.vid();
     g.note_guard(1);
-    Held { g, id }
+    Held { inner: Some(g), id }
 }
 
 /// Check that the guard still denotes the value it denoted at creation.
 fn verify<V: Val, S: StratExt<V>>(h: &Held<V, S>, when: &str) {
-    let now = h.g.vid();
+    let now = h.g().vid();
     if now != h.id {
         report("C10", "guard-identity-changed", format!("guard created on value {:x} denotes {:x} {}", h.id, now, when));
     }
@@ -176,8 +194,10 @@ fn verify<V: Val, S: StratExt<V>>(h: &Held<V, S>, when: &str) {
 
 pub(crate) fn release<V: Val, S: StratExt<V>>(h: Held<V, S>) -> Guard<V, S> {
     verify(&h, "at drop");
-    h.g.note_guard(-1);
-    h.g
+    let mut h = h;
+    let g = h.inner.take().expect("guard already released");
+    g.note_guard(-1);
+    g
 }
 
 pub(crate) struct Own<V: Val> {
@@ -245,6 +265,8 @@ pub(crate) struct Worker<V: Val, S: StratExt<V>> {
     pub(crate) last_steps: std::cell::Cell<u32>,
     /// one cache per container (created on first use) and the address of the value it retains
     pub(crate) caches: Vec<Option<(CacheKind<V, S>, usize)>>,
+    /// the write operation in flight (recorded as an open operation if the call unwinds)
+    pub(crate) pending: RefCell<Option<Op>>,
 }
 
 impl<V: Val, S: StratExt<V>> Worker<V, S> {
@@ -259,6 +281,22 @@ impl<V: Val, S: StratExt<V>> Worker<V, S> {
         let vid = v.vid();
         self.res.borrow_mut().addr_of.push((vid, v.addr() as u64));
         v
+    }
+
+    /// Start of a write operation: remember it as open until it returns.
+    fn begin_write(&self, c: usize, kind: Kind, a: u64, cur_addr: u64) -> u64 {
+        let inv = self.stamp();
+        *self.pending.borrow_mut() = Some(Op { t: self.t as u8, c: c as u8, kind, a, cur_addr, ret: lin::ANY, ret_addr: 0, inv, resp: u64::MAX, path: 0 });
+        inv
+    }
+
+    /// After a panic unwound out of an operation: the write in flight (if any) stays open.
+    pub(crate) fn after_panic(&self) {
+        runner::set_in_call(false);
+        sched::op_steps();
+        if let Some(op) = self.pending.borrow_mut().take() {
+            self.res.borrow_mut().ops.push(op);
+        }
     }
 
     fn push_op(&self, c: usize, kind: Kind, a: u64, cur_addr: u64, ret: u64, ret_addr: u64, inv: u64, resp: u64) {
@@ -340,7 +378,7 @@ impl<V: Val, S: StratExt<V>> Worker<V, S> {
 
     fn keep_guard(&mut self, c: usize, g: Guard<V, S>) {
         let h = hold(g);
-        self.seen_addrs.push(h.g.addr() as u64);
+        self.seen_addrs.push(h.g().addr() as u64);
         if self.guards.len() < self.sh.profile.max_guards {
             self.guards.push((c, h));
         } else {
@@ -358,6 +396,7 @@ impl<V: Val, S: StratExt<V>> Worker<V, S> {
     }
 
     pub(crate) fn do_op(&mut self, w: W) {
+        crate::fault::CURRENT_OP.with(|c| c.set(w as u8));
         match w {
             W::Load | W::LoadDrop => {
                 let c = self.pick_cont();
@@ -416,9 +455,10 @@ impl<V: Val, S: StratExt<V>> Worker<V, S> {
                 let c = self.pick_cont();
                 let v = self.fresh();
                 let id = v.vid();
-                let inv = self.stamp();
+                let inv = self.begin_write(c, Kind::Store, id, 0);
                 self.call(false, || self.conts[c].store(v));
                 let resp = self.stamp();
+                self.pending.borrow_mut().take();
                 self.push_op(c, Kind::Store, id, 0, 0, 0, inv, resp);
             }
             W::StoreShared => {
@@ -428,9 +468,10 @@ impl<V: Val, S: StratExt<V>> Worker<V, S> {
                     let v = o.v.clone();
                     let id = o.id;
                     let c = self.pick_cont();
-                    let inv = self.stamp();
+                    let inv = self.begin_write(c, Kind::Store, id, 0);
                     self.call(false, || self.conts[c].store(v));
                     let resp = self.stamp();
+                    self.pending.borrow_mut().take();
                     self.push_op(c, Kind::Store, id, 0, 0, 0, inv, resp);
                 }
             }
@@ -438,9 +479,10 @@ impl<V: Val, S: StratExt<V>> Worker<V, S> {
                 let c = self.pick_cont();
                 let v = self.fresh();
                 let id = v.vid();
-                let inv = self.stamp();
+                let inv = self.begin_write(c, Kind::Swap, id, 0);
                 let old = self.call(false, || self.conts[c].swap(v));
                 let resp = self.stamp();
+                self.pending.borrow_mut().take();
                 self.push_op(c, Kind::Swap, id, 0, old.vid(), old.addr() as u64, inv, resp);
                 self.keep_owned(old);
             }
@@ -564,29 +606,29 @@ impl<V: Val, S: StratExt<V>> Worker<V, S> {
             match form {
                 0 if S::HAS_GUARD_FORMS => {
                     let (_, h) = self.guards.swap_remove(gi);
-                    cur_addr = h.g.addr() as u64;
+                    cur_addr = h.g().addr() as u64;
                     let g = release(h);
-                    inv = self.stamp();
+                    inv = self.begin_write(c, Kind::Cas, new_id, cur_addr);
                     prev = self.call(false, || S::cas_guard_owned(&self.conts[c], g, new));
                 }
                 1 if S::HAS_GUARD_FORMS => {
                     let h = &self.guards[gi].1;
-                    cur_addr = h.g.addr() as u64;
-                    inv = self.stamp();
-                    prev = self.call(false, || S::cas_guard_ref(&self.conts[c], &h.g, new));
+                    cur_addr = h.g().addr() as u64;
+                    inv = self.begin_write(c, Kind::Cas, new_id, cur_addr);
+                    prev = self.call(false, || S::cas_guard_ref(&self.conts[c], h.g(), new));
                 }
                 2 => {
                     let h = &self.guards[gi].1;
-                    cur_addr = h.g.addr() as u64;
-                    let raw = V::as_ptr(&h.g) as *const V::Base;
-                    inv = self.stamp();
+                    cur_addr = h.g().addr() as u64;
+                    let raw = V::as_ptr(h.g()) as *const V::Base;
+                    inv = self.begin_write(c, Kind::Cas, new_id, cur_addr);
                     prev = self.call(false, || self.conts[c].compare_and_swap(raw, new));
                 }
                 _ => {
                     let h = &self.guards[gi].1;
-                    cur_addr = h.g.addr() as u64;
-                    inv = self.stamp();
-                    prev = self.call(false, || self.conts[c].compare_and_swap(&*h.g, new));
+                    cur_addr = h.g().addr() as u64;
+                    inv = self.begin_write(c, Kind::Cas, new_id, cur_addr);
+                    prev = self.call(false, || self.conts[c].compare_and_swap(&**h.g(), new));
                 }
             }
         } else if !self.owned.is_empty() && form < 6 {
@@ -594,11 +636,11 @@ impl<V: Val, S: StratExt<V>> Worker<V, S> {
             cur_addr = self.owned[o].v.addr() as u64;
             if form == 4 {
                 let raw = V::as_ptr(&self.owned[o].v);
-                inv = self.stamp();
+                inv = self.begin_write(c, Kind::Cas, new_id, cur_addr);
                 prev = self.call(false, || self.conts[c].compare_and_swap(raw, new));
             } else {
                 let cur = &self.owned[o].v;
-                inv = self.stamp();
+                inv = self.begin_write(c, Kind::Cas, new_id, cur_addr);
                 prev = self.call(false, || self.conts[c].compare_and_swap(cur, new));
             }
         } else if self.sh.profile.cas_pool && !self.seen_addrs.is_empty() && form == 6 {
@@ -606,19 +648,20 @@ impl<V: Val, S: StratExt<V>> Worker<V, S> {
             let a = *self.rng.pick(&self.seen_addrs);
             cur_addr = a;
             let raw = a as usize as *const V::Base;
-            inv = self.stamp();
+            inv = self.begin_write(c, Kind::Cas, new_id, cur_addr);
             prev = self.call(false, || self.conts[c].compare_and_swap(raw, new));
         } else {
             // Load first (the common usage), then exchange against what was loaded.
             let g0 = self.call(true, || self.conts[c].load());
             let h0 = hold(g0);
-            cur_addr = h0.g.addr() as u64;
+            cur_addr = h0.g().addr() as u64;
             sched::step(hs::OP_GAP);
-            inv = self.stamp();
-            prev = self.call(false, || self.conts[c].compare_and_swap(&*h0.g, new));
+            inv = self.begin_write(c, Kind::Cas, new_id, cur_addr);
+            prev = self.call(false, || self.conts[c].compare_and_swap(&**h0.g(), new));
             drop(release(h0));
         }
         let resp = self.stamp();
+        self.pending.borrow_mut().take();
         let ret_id = prev.vid();
         let ret_addr = prev.addr() as u64;
         self.push_op(c, Kind::Cas, new_id, cur_addr, ret_id, ret_addr, inv, resp);
@@ -649,6 +692,9 @@ impl<V: Val, S: StratExt<V>> Worker<V, S> {
             conts[c].rcu(|cur: &V| {
                 let entry = sh.clock.fetch_add(1, SeqCst);
                 sched::step(hs::CLOSURE);
+                // the closure is user code: the previous attempt's exchange is over (it failed)
+                self.pending.borrow_mut().take();
+                crate::fault::hit(crate::fault::K_CLOSURE);
                 let in_id = cur.vid();
                 let in_addr = cur.addr() as u64;
                 if nest {
@@ -667,12 +713,16 @@ impl<V: Val, S: StratExt<V>> Worker<V, S> {
                 let out = V::fresh(base + k);
                 let out_id = out.vid();
                 products.borrow_mut().push((out_id, out.addr() as u64));
+                self.res.borrow_mut().addr_of.push((out_id, out.addr() as u64));
                 let exit = sh.clock.fetch_add(1, SeqCst);
                 attempts.borrow_mut().push((entry, exit, in_id, in_addr, out_id));
+                // the exchange that follows is in flight until the next closure call or the return
+                *self.pending.borrow_mut() = Some(Op { t: t as u8, c: c as u8, kind: Kind::Cas, a: out_id, cur_addr: in_addr, ret: lin::ANY, ret_addr: 0, inv: exit, resp: u64::MAX, path: 0 });
                 out
             })
         });
         let resp = self.stamp();
+        self.pending.borrow_mut().take();
         let prev_id = prev.vid();
         let prev_addr = prev.addr() as u64;
         let att = attempts.into_inner();
@@ -971,6 +1021,7 @@ where
                 budgets: std::cell::Cell::new((sh2.step_budget, sh2.step_budget)),
                 last_steps: std::cell::Cell::new(0),
                 caches: Vec::new(),
+                pending: RefCell::new(None),
             };
             let cache_p = sh2.profile.cache_p;
             for _ in 0..nops {
@@ -1136,7 +1187,7 @@ pub(crate) fn analyze<V: Val, S: StratExt<V>>(
             filtered = threads.iter().map(|th| th.iter().filter(|o| !d5.contains(&(o.t, o.inv))).cloned().collect()).collect();
             &filtered
         };
-        match lin::check(threads, init_ids[c], f, &addr_of, 400_000) {
+        match lin::check_open(threads, init_ids[c], f, &addr_of, 400_000) {
             Verdict::Ok => runner::count("histories.linearizable", 1),
             Verdict::Violation(msg) => {
                 let cas = all.iter().any(|o| o.kind == Kind::Cas);
